@@ -47,7 +47,7 @@ def main():
             if demo:
                 runner = 'python3' if demo.endswith('.py') else 'bash'
                 r1 = sh(f'{runner} {demo} {wt}', timeout=3600)
-                clean = '/tmp/st/_clean'
+                clean = f'/tmp/st/_clean_{name}'      # one clean tree per seed: parallel confirmations must not share it
                 sh(f'git -C /repo worktree remove --force {clean}'); sh(f'git -C /repo worktree add -q --detach {clean} HEAD')
                 r2 = sh(f'{runner} {demo} {clean}', timeout=3600)
                 sh(f'git -C /repo worktree remove --force {clean}')
